@@ -183,6 +183,11 @@ pub mod stubs {
 		ser::Error::IOErr(String::new(), k)
 	}
 
+	/// E15b: the stable sort entry point (driftsort) replaced by the same (stable) insertion sort
+	pub fn stable_sort<T, F: FnMut(&T, &T) -> bool>(v: &mut [T], mut is_less: F) {
+		insertion_sort(v, &mut is_less)
+	}
+
 	// ---- E15: std's unstable sort (ipnsort / sorting networks over raw pointers) replaced by
 	// an insertion sort with the same signature and comparator
 	pub fn insertion_sort<T, F: FnMut(&T, &T) -> bool>(v: &mut [T], is_less: &mut F) {
@@ -619,6 +624,7 @@ macro_rules! proof {
 	( @acc [sort, $($g:ident,)*] [$($a:tt)*] $($rest:tt)* ) => {
 		$crate::proof! { @acc [$($g,)*] [$($a)*
 			#[cfg_attr(kani, kani::stub(core::slice::sort::unstable::sort, crate::env::stubs::insertion_sort))]
+			#[cfg_attr(kani, kani::stub(alloc::slice::stable_sort, crate::env::stubs::stable_sort))]
 		] $($rest)* }
 	};
 	( @acc [secp, $($g:ident,)*] [$($a:tt)*] $($rest:tt)* ) => {
